@@ -89,6 +89,7 @@ func (f *verifFactory) Close() error {
 	return nil
 }
 func (f *verifFactory) AcquirePage(index int64) (page.MappedPage, error) {
+	index = verifPin(index)
 	if f.closed {
 		return nil, errVerifClosed
 	}
@@ -110,6 +111,7 @@ func (f *verifFactory) AcquirePage(index int64) (page.MappedPage, error) {
 	return p, nil
 }
 func (f *verifFactory) GetPage(index int64) (page.MappedPage, bool) {
+	index = verifPin(index)
 	p, ok := f.pages[index]
 	if !ok {
 		return nil, false
@@ -117,6 +119,7 @@ func (f *verifFactory) GetPage(index int64) (page.MappedPage, bool) {
 	return p, true
 }
 func (f *verifFactory) TruncatePages(index int64) {
+	index = verifPin(index)
 	if f.closed {
 		return
 	}
@@ -162,7 +165,18 @@ func (fs *verifFS) dead() bool {
 }
 
 func (fs *verifFS) pageName(dir string, index int64) string {
-	return filepath.Join(dir, verifItoa(index)+".bat")
+	return filepath.Join(dir, verifItoa(verifPin(index))+".bat")
+}
+
+// verifPin turns a page index that the code read back from a symbolic page (and that the path
+// condition determines) into the constant it is: the comparisons are decided by the solver.
+func verifPin(i int64) int64 {
+	for k := int64(0); k < 8; k++ {
+		if i == k {
+			return k
+		}
+	}
+	return i
 }
 
 func verifItoa(i int64) string {
